@@ -483,7 +483,8 @@ contract(
     target='cgsmiles.read_fragments:read_fragments', trusted=True,
     params=[('fragment_str', None), ('all_atom', 'True'), ('fragment_dict', 'None')],
     types={'fragment_str': 'Str', 'all_atom': 'Bool'}, returns='Dict[Str,Graph:tmpl]', modifies=[], allocates=True,
-    raises={'SyntaxError': {'when': None}, 'KeyError': {'when': None}, 'ValueError': {'when': None}},
+    # whatever the fragment reader rejects (SyntaxError, TypeError for a malformed annotation, KeyError, ValueError, ...) propagates
+    raises={'Exception': {'when': None}},
     notes='assumed: the fragment scanner / pysmiles reader; checked by the bounded tier (C08, C13, C14)',
     assumes=['read_fragments returns a dict of new fragment graphs and modifies nothing else (or raises)'],
 )
@@ -508,7 +509,7 @@ contract(
         "len(result) == len(fragment_strings)",
         "reads == len(fragment_strings)",
     ],
-    raises={'SyntaxError': {'when': None}, 'KeyError': {'when': None}, 'ValueError': {'when': None}},
+    raises={'Exception': {'when': None}},       # only what read_fragments raises (it is passed through unchanged)
     modifies=[], allocates=True,
     ghosts={'reads': ('Int', '0')},
     on_call={'read_fragments': [
